@@ -7,7 +7,8 @@ From Coq Require Import Reals Bool List.
 From Coquelicot Require Import Coquelicot.
 From RV Require Import Base.RB Gen.GenC10Triplet Gen.GenC10Hem Gen.GenC10Merton Gen.GenC10Vg Gen.GenC10Cgmy Gen.GenC10Bs Gen.GenC10Exp Gen.GenC10Jump
   Gen.GenC09Hem Gen.GenC09Vg Gen.GenC09Trunc Model.LevyClosedForms Model.LevyExponent Proofs.C10_Triplet Proofs.C10_Exponent Proofs.C10_HemLK
-  Proofs.C10_Cgmy Proofs.C10_VgLK Proofs.C10_Jump Proofs.C10_Reinit.
+  Proofs.C10_Cgmy Proofs.C10_VgLK Proofs.C10_Jump Proofs.C10_Reinit
+  Base.CxPair Gen.GenC10Cx Model.LevyExponentCx Proofs.C10_HemCx Proofs.C10_VgCx Proofs.C10_CxAxis.
 Import ListNotations.
 Open Scope R_scope.
 
@@ -229,6 +230,56 @@ Theorem C10_ctmc_truncated_hem : forall INF lam p eta1 eta2 l r r0 d sigma mu_h,
   (p = 1 -> 0 < lam -> growth < r0 - d).
 Proof. exact hem_ctmc_truncated_route. Qed.
 
+(* --- wave 6: the characteristic exponent at a REAL argument u (complex value).  levy_exponent_c is the py2coq translation of
+       LevyModel.levy_exponent over C = R * R (the pure-jump exponent is a function argument), hem_pj_c / vg_pj_c those of
+       HEMModel / VarianceGammaModel.levy_exponent_pure_jump for a complex argument (Gen.GenC10Cx, plug-in py2coq_c10cx);
+       psi_c a sigma pj u = levy_exponent_c a sigma pj (RtoC u).
+   HEM, H_rep on the real u axis: Re and Im of exp(i u x) - 1 (declared ZERO: no compensator) integrated against the generated
+   density over each half-line (improper integrals from / to the point 0) are the closed forms CLn_re, CLp_re, CLn_im, CLp_im;
+   the generated complex code at i u is their sum, and the full exponent adds - sigma^2 u^2 / 2 to Re and a u to Im. *)
+Theorem C10_hem_char_exponent : forall a sigma lam p eta1 eta2 u, 0 < eta1 -> 0 < eta2 ->
+  let nu := hem_nu lam p eta1 eta2 in
+  is_RInt_gen (fun x => lk_integrand_re u x * nu x) (Rbar_locally m_infty) (at_point 0) (CLn_re lam p eta2 u) /\
+  is_RInt_gen (fun x => lk_integrand_re u x * nu x) (at_point 0) (Rbar_locally p_infty) (CLp_re lam p eta1 u) /\
+  is_RInt_gen (fun x => lk_integrand_im ZERO true u x * nu x) (Rbar_locally m_infty) (at_point 0) (CLn_im lam p eta2 u) /\
+  is_RInt_gen (fun x => lk_integrand_im ZERO true u x * nu x) (at_point 0) (Rbar_locally p_infty) (CLp_im lam p eta1 u) /\
+  hem_pj_c lam p eta1 eta2 (Cmult Ci (RtoC u))
+  = (CLn_re lam p eta2 u + CLp_re lam p eta1 u, CLn_im lam p eta2 u + CLp_im lam p eta1 u) /\
+  psi_c a sigma (hem_pj_c lam p eta1 eta2) u
+  = (- (sigma ^ 2 * u ^ 2) / 2 + (CLn_re lam p eta2 u + CLp_re lam p eta1 u), a * u + (CLn_im lam p eta2 u + CLp_im lam p eta1 u)).
+Proof. exact hem_char_exponent_is_LK. Qed.
+(* Variance Gamma at a real u, PARTIAL: only the closed form of the generated complex code (numpy's complex log: Re = ln|z|,
+   Im = atan2 = atan(B/A) because A >= 1); full statement, NOT proved:
+     is_RInt_gen (fun x => lk_integrand_re u x * vg_nu c lm lp x) (at_right 0) (Rbar_locally p_infty) (- c / 2 * ln (1 + u^2 / lp^2)), the
+     same on the left with lm, is_RInt_gen of lk_integrand_im ... = c atan(u / lp) and - c atan(u / lm), and Re / Im of
+     vg_pj_c (i u) = the sums (needs the complex Frullani integral). *)
+Theorem C10_vg_char_exponent_closed_form_partial : forall a sigma0 sigma nu theta u, 0 < nu ->
+  1 <= vg_A sigma nu u /\
+  vg_pj_c sigma nu theta (Cmult Ci (RtoC u))
+  = (- ln (sqrt (vg_A sigma nu u ^ 2 + vg_B nu theta u ^ 2)) / nu, - atan (vg_B nu theta u / vg_A sigma nu u) / nu) /\
+  psi_c a sigma0 (vg_pj_c sigma nu theta) u
+  = (- (sigma0 ^ 2 * u ^ 2) / 2 + Cre (vg_pj_c sigma nu theta (Cmult Ci (RtoC u))), a * u + Cim (vg_pj_c sigma nu theta (Cmult Ci (RtoC u)))).
+Proof. intros a sigma0 sigma nu theta u H. split; [apply vg_A_pos; exact H | split; [apply vg_pj_c_parts; exact H | apply psi_c_parts]]. Qed.
+(* Variance Gamma at a real u, PARTIAL (real part): in the generated constants c, lambda_m, lambda_p of VGParameters.__init__ (those of the
+   generated density vg_nu) the squared modulus of the logarithm's argument factors as (1 + u^2/lp^2)(1 + u^2/lm^2) and the real part of the
+   generated complex exponent at i u is -(c/2) ln(1 + u^2/lm^2) - (c/2) ln(1 + u^2/lp^2): the closed forms of int (cos(u x) - 1) vg_nu over
+   (-oo, 0) and (0, +oo).  NOT proved: those two integral identities, and the imaginary part c atan(u/lp) - c atan(u/lm). *)
+Theorem C10_vg_char_exponent_re_partial : forall sigma nu theta u, 0 < sigma -> 0 < nu ->
+  let c := vg_init_c sigma nu theta in let lm := vg_init_lambda_m sigma nu theta in let lp := vg_init_lambda_p sigma nu theta in
+  0 < lp /\ 0 < lm /\
+  vg_A sigma nu u ^ 2 + vg_B nu theta u ^ 2 = (1 + u ^ 2 / lp ^ 2) * (1 + u ^ 2 / lm ^ 2) /\
+  Cre (vg_pj_c sigma nu theta (Cmult Ci (RtoC u))) = - (c / 2) * ln (1 + u ^ 2 / lm ^ 2) + - (c / 2) * ln (1 + u ^ 2 / lp ^ 2).
+Proof. exact vg_char_exponent_re. Qed.
+(* the hand model kappa(s) = psi(-i s) of the statements above IS the generated complex code of levy_exponent evaluated at
+   x = -1j * s (minus_i_times s), the generated complex pure-jump exponents being real on the real axis where the real code is
+   defined (HEM: s off the two poles; VG: positive argument of the logarithm, vg_logarg) *)
+Theorem C10_kappa_is_generated_exponent :
+  (forall a sigma lam p eta1 eta2 s, s <> eta1 -> s <> - eta2 ->
+     levy_exponent_c a sigma (hem_pj_c lam p eta1 eta2) (minus_i_times s) = RtoC (kappa a sigma (hem_pj lam p eta1 eta2) s)) /\
+  (forall a sigma0 sigma nu theta s, nu <> 0 -> 0 < vg_logarg sigma nu theta s ->
+     levy_exponent_c a sigma0 (vg_pj_c sigma nu theta) (minus_i_times s) = RtoC (kappa a sigma0 (vg_pj sigma nu theta) s)).
+Proof. split; [exact kappa_is_generated_hem | exact kappa_is_generated_vg]. Qed.
+
 (* non-vacuity: a concrete chain of conversions *)
 Example C10_nonvacuous : forall INF m1,
   t_a (set_representation INF m1 true CENTER (set_representation INF m1 true ONEONE (mkTriplet 5 ZERO)))
@@ -242,6 +293,14 @@ Proof. exact vg_example. Qed.
 Example C10_hem_jump_nonvacuous :
   hem_jump (1 / 2) 2 3 (1 / 4) (1 - exp (- 2)) = 1 /\ hem_jump (1 / 2) 2 3 (3 / 4) (1 - exp (- 3)) = - 1.
 Proof. exact hem_jump_example. Qed.
+
+(* non-vacuity of the wave-6 statements: HEM lam = 1, p = 1/2, eta1 = 2, eta2 = 3 at u = 1: the four half-line integrals are non-zero
+   and the exponent is the non-real number -3/20 + i/20; VG: the logarithm's argument is positive at s = 1/2, and A = 2, B = -1 at u = 1 *)
+Example C10_cx_nonvacuous :
+  CLp_re 1 (1 / 2) 2 1 = - (1 / 10) /\ CLp_im 1 (1 / 2) 2 1 = 1 / 5 /\ CLn_re 1 (1 / 2) 3 1 = - (1 / 20) /\ CLn_im 1 (1 / 2) 3 1 = - (3 / 20) /\
+  psi_c 0 0 (hem_pj_c 1 (1 / 2) 2 3) 1 = (- (3 / 20), 1 / 20) /\
+  0 < vg_logarg 1 2 0 (1 / 2) /\ vg_A 1 2 1 = 2 /\ vg_B 2 (1 / 2) 1 = - 1.
+Proof. exact cx_example. Qed.
 
 Print Assumptions C10_conversions_path_independent.
 Print Assumptions C10_conversions_any_sequence.
@@ -269,6 +328,11 @@ Print Assumptions C10_ctmc_route_algebra.
 Print Assumptions C10_martingale_ctmc_hem.
 Print Assumptions C10_ctmc_truncation_bias_algebra.
 Print Assumptions C10_ctmc_truncated_hem.
+Print Assumptions C10_hem_char_exponent.
+Print Assumptions C10_vg_char_exponent_closed_form_partial.
+Print Assumptions C10_vg_char_exponent_re_partial.
+Print Assumptions C10_kappa_is_generated_exponent.
 Print Assumptions C10_nonvacuous.
 Print Assumptions C10_vg_nonvacuous.
 Print Assumptions C10_hem_jump_nonvacuous.
+Print Assumptions C10_cx_nonvacuous.
